@@ -11,7 +11,7 @@ TraceInit ==
     /\ RegInit
     /\ t \in 1..NTraces /\ l = 1
     /\ cfg = Log[t].cfg
-    /\ phase = IF cfg.api = "recv" THEN "len" ELSE "send"
+    /\ phase = IF cfg.conn = "own" THEN "connect" ELSE IF cfg.api = "recv" THEN "len" ELSE "send"
     /\ sent = <<>> /\ need = 2 /\ got = 0 /\ buf = <<>> /\ pos = 0
     /\ now = 0 /\ nblocks = 0 /\ result = "-"
 
@@ -39,6 +39,10 @@ TRead ==
     /\ IF e.n = 0 THEN Eof ELSE Chunk(e.n)
     /\ Adv
 
+TConnected == e.op = "connected" /\ AfterDeadline /\ Connected /\ Adv
+\* the library asked the socket for more after the environment's last event: after the deadline that
+\* is NothingAfterDeadline, otherwise it did not stop where the specification says the call ends
+TExhausted == e.op = "exhausted" /\ AfterDeadline /\ Check(t, l, "AsksBeyondEndOfCall", FALSE) /\ UNCHANGED vars /\ Adv
 TBlock == e.op = "block" /\ AfterDeadline /\ Block /\ Adv
 TSilence == e.op = "silence" /\ AfterDeadline /\ Silence /\ Adv
 
@@ -65,7 +69,7 @@ TEnd ==
 
 TraceNext ==
     /\ l <= Len(Ev(t))
-    /\ \/ TAccept \/ TRead \/ TBlock \/ TSilence \/ TEnd
+    /\ \/ TAccept \/ TRead \/ TBlock \/ TSilence \/ TConnected \/ TExhausted \/ TEnd
 
 Accepted == Accepting(t, l)
 =============================================================================
